@@ -368,6 +368,13 @@ theorem fg_step_keeps {s s' : Lsm.State} {m : Spec} {a : Lsm.Act} (hi : Inv s m)
         subst h
         exact ⟨keeps_same_levels rfl rfl, hc⟩
       · cases h
+  | flushAbort =>
+    simp only [step] at h
+    split at h
+    · cases h
+    · simp only [Option.some.injEq] at h
+      subst h
+      exact ⟨keeps_same_levels rfl rfl, hc⟩
   | flushCommit =>
     simp only [step] at h
     split at h
@@ -635,6 +642,14 @@ theorem front_step {s t s' : Lsm.State} {a : Lsm.Act} (hf : SameFront s t) (hna 
         rw [if_pos hcond]
         exact ⟨_, rfl, hseq, by simp [hmems], rfl, hrd⟩
       · cases h
+  | flushAbort =>
+    simp only [step] at h ⊢
+    rw [← hfl]
+    split at h
+    · cases h
+    · simp only [Option.some.injEq] at h
+      subst h
+      exact ⟨_, rfl, hseq, hmems, rfl, hrd⟩
   | compact rm lvl add => simp [isCompact] at hna
   | getA k =>
     simp only [step] at h ⊢
